@@ -51,6 +51,16 @@ def make_cases(tier):
     for i, f in enumerate(forward_reference_files(r, pool)):
         for s in range(1, nsrc + 1):
             base.append(A.case("c08h-%d-%d-lazy" % (i, s), f, s, "lazy"))
+    # files whose stanzas reuse a capture name with different quantifiers (acceptance must not depend on the order either)
+    import checks.c03 as c03
+    for a in range(len(pool)):
+        for b in range(a + 1, len(pool)):
+            qa = {c["name"]: c["q"] for c in pool[a]["caps"]}
+            qb = {c["name"]: c["q"] for c in pool[b]["caps"]}
+            if any(n in qb and qa[n] != qb[n] for n in qa):
+                extra = r.choice(range(len(pool)))
+                prog = A.file([c03.probe_stanza(1, pool[a]), c03.probe_stanza(2, pool[b]), c03.probe_stanza(3, pool[extra])][: (2 if r.random() < 0.5 else 3)])
+                base.append(A.case("c08q-%d-%d-lazy" % (a, b), prog, r.choice([2, 3, 5, 6, 7, 8, 11, 14, 17]), "lazy"))
     cases = []
     maxn = 3 if tier == "quick" else 4
     for c in base:
@@ -76,7 +86,20 @@ def judge(run):
         groups.setdefault(case["id"].split("~p")[0], []).append((case, res, cl))
     stats = {"groups": 0, "compared": 0, "permutations": 0, "excluded_text": 0, "all_ok": 0, "all_err": 0}
     for key, members in sorted(groups.items()):
-        if any(r is None or r["status"] == "unsupported" or "outcome" not in c for c, r, _ in members):
+        if any("outcome" not in c or "skip" in c for c, r, _ in members):
+            continue
+        loads = [c["outcome"]["status"] == "load_err" for c, _, _ in members]
+        if any(loads):
+            stats["groups"] += 1
+            if not all(loads):
+                c0 = members[loads.index(False)][0]
+                c1 = members[loads.index(True)][0]
+                payload = {"property": PROP, "detail": "the loader accepts the file in stanza order %s and rejects it in order %s: %s" % (
+                    c0["perm"], c1["perm"], c1["outcome"]["err"]["display"]), "dsl_text": c1.get("text"), "accepted_text": c0.get("text"),
+                    "cases": [{k: x[k] for k in x if k not in ("events", "retab", "matches", "lorder", "outcome", "text")} for x in (c0, c1)]}
+                V.violation(c1["id"], payload, {"observed": "order-dependent-load"})
+            continue
+        if any(r is None or r["status"] == "unsupported" for c, r, _ in members):
             continue
         stats["groups"] += 1
         if any(r["gntext"] for _, r, _ in members):
